@@ -357,6 +357,93 @@ def normalise_params(trees: list[ast.Module]) -> list[str]:
     return done
 
 
+PINNED_FUNCS_FILE = Path(__file__).resolve().parent / "pinned_functions.json"
+
+
+def function_fingerprint(f: ast.FunctionDef) -> list[str]:
+    """A name-independent description of a function: its parameters, the
+    simple names it calls and the attribute names it touches (as a multiset,
+    its own name replaced by <self>)."""
+    out = [f"p:{a.arg}" for a in _param_args(f)]
+    for n in ast.walk(f):
+        if isinstance(n, ast.Call):
+            cn = call_name(n)
+            if cn:
+                out.append("c:" + ("<self>" if cn == f.name else cn))
+        elif isinstance(n, ast.Attribute):
+            out.append("a:" + n.attr)
+        elif isinstance(n, (ast.For, ast.While, ast.If, ast.Try, ast.With,
+                            ast.Return, ast.Yield, ast.Raise)):
+            out.append("s:" + type(n).__name__)
+    return sorted(out)
+
+
+def _similarity(a: list[str], b: list[str]) -> float:
+    from collections import Counter
+    ca, cb = Counter(a), Counter(b)
+    inter = sum((ca & cb).values())
+    union = sum((ca | cb).values())
+    return inter / union if union else 1.0
+
+
+def normalise_function_names(trees: list[ast.Module]) -> list[str]:
+    """Alpha-normalisation of function names to the pinned tree: a function
+    of the pinned table that is missing, while exactly one *new* function
+    (not in the table) has the same fingerprint (parameters, callees,
+    attributes touched; similarity >= 0.9) is taken to be that function under
+    a new name; the new name is replaced by the pinned one throughout the
+    package (definition, calls, imports).  Rules name functions, so a rename
+    alone must not make an anchor vanish."""
+    try:
+        pinned: dict[str, list[str]] = json.loads(
+            PINNED_FUNCS_FILE.read_text())
+    except FileNotFoundError:
+        return []
+    cur: dict[str, list[ast.FunctionDef]] = {}
+    simple: dict[str, int] = {}
+    for tree in trees:
+        for cls, f in _iter_defs(tree):
+            cur.setdefault(_def_key(cls, f.name), []).append(f)
+            simple[f.name] = simple.get(f.name, 0) + 1
+    missing = [k for k in pinned if k not in cur]
+    extra = [k for k, fs in cur.items() if k not in pinned and len(fs) == 1]
+    done: list[str] = []
+    if not missing or not extra:
+        return done
+    fps = {k: function_fingerprint(cur[k][0]) for k in extra}
+    for m in missing:
+        mcls = m.rsplit(".", 1)[0] if "." in m else None
+        scored = sorted(((_similarity(fps[e], pinned[m]), e) for e in extra
+                         if (e.rsplit(".", 1)[0] if "." in e else None)
+                         == mcls), reverse=True)
+        if not scored or scored[0][0] < 0.9:
+            continue
+        if len(scored) > 1 and scored[1][0] >= 0.9:
+            continue
+        e = scored[0][1]
+        old, new = e.split(".")[-1], m.split(".")[-1]
+        if simple.get(old, 0) != 1 or simple.get(new, 0) != 0:
+            continue
+        for tree in trees:
+            for n in ast.walk(tree):
+                if isinstance(n, (ast.FunctionDef, ast.AsyncFunctionDef)) \
+                        and n.name == old:
+                    n.name = new
+                elif isinstance(n, ast.Name) and n.id == old:
+                    n.id = new
+                elif isinstance(n, ast.Attribute) and n.attr == old:
+                    n.attr = new
+                elif isinstance(n, ast.alias):
+                    if n.name == old:
+                        n.name = new
+                    if n.asname == old:
+                        n.asname = new
+        extra.remove(e)
+        simple[new], simple[old] = 1, 0
+        done.append(f"{e}->{m}")
+    return done
+
+
 def positionalise_calls(trees: list[ast.Module]) -> int:
     """Normal form for calls of package functions: keyword arguments that
     continue the positional prefix are turned into positional arguments
@@ -454,6 +541,8 @@ class Index:
             )
             self.modules[modname] = mod
             pkg_flags[modname] = path.name == "__init__.py"
+        self.normalised_functions = normalise_function_names(
+            [m.tree for m in self.modules.values()])
         self.normalised_params = normalise_params(
             [m.tree for m in self.modules.values()])
         self.positionalised_calls = positionalise_calls(
